@@ -136,6 +136,7 @@ impl PartialEq for Value_ {
     fn eq(&self, other: &Self) -> bool {
         match (self, other) {
             (Value_::Int(i1), Value_::Int(i2)) => i1 == i2,
+            (Value_::Float(f1), Value_::Float(f2)) => f1 == f2,
             (
                 Value_::Fun { name_sym, .. },
                 Value_::Fun {
@@ -226,6 +227,20 @@ impl PartialEq for Value_ {
                     ..
                 },
             ) => self_runtime_type == other_runtime_type && self_fields == other_fields,
+            (
+                Value_::Dict {
+                    items: self_items,
+                    value_type: _,
+                },
+                Value_::Dict {
+                    items: other_items,
+                    value_type: _,
+                },
+            ) => {
+                // As with lists, don't consider the value type, so
+                // Dict[] == Dict[] however the dicts were built.
+                self_items == other_items
+            }
             _ => false,
         }
     }
